@@ -388,8 +388,9 @@ func notTri(v Value) Value {
 // Comparability (openCypher 9, "Ordering and comparison of values"): <, <=, >, >=.
 //
 // compareTri returns (cmp, comparable, undefined):
-//   comparable == false -> the comparison is null (null operand or incomparable types)
-//   undefined == true   -> a NaN is involved: every one of <, <=, >, >= is false
+//
+//	comparable == false -> the comparison is null (null operand or incomparable types)
+//	undefined == true   -> a NaN is involved: every one of <, <=, >, >= is false
 func compareTri(a, b Value) (cmp int, comparable bool, undefined bool) {
 	if a == nil || b == nil {
 		return 0, false, false
